@@ -41,6 +41,12 @@ KANI += [
     KH("c16_features::c16_cosine_prefix", "quick", 1800,
        "features of different block counts: cosine over the common packed prefix, both argument orders",
        "2 blocks vs 1 block, 1+1+1 symbolic integer lanes in [-4,4]", [D + "cosine"], args=ST),
+    KH("c16_features::c16_euclid_3blocks", "quick", 1200,
+       "three packed blocks (odd block count > 1): every block contributes exactly once; symmetric",
+       "3 blocks vs 3 blocks, 1 symbolic integer lane per block", [D + "euclidean"], args=ST),
+    KH("c16_features::c16_cosine_small_magnitude", "quick", 900,
+       "small-magnitude vectors (lanes scaled by 2^-10, exact): parallel = 1, opposite = -1, invariant under scaling by 2^10",
+       "one block, 2 symbolic integer lanes in [-3,3] x 2^-10, k in 1..3", [D + "cosine"], args=ST),
     KH("c16_features::c16_euclid_prefix", "thorough", 2400,
        "features of different block counts: euclidean over the common packed prefix; two blocks: sum over both",
        "2 blocks vs 1 and 2 blocks, 2 symbolic integer lanes per block", [D + "euclidean"], args=ST),
